@@ -95,9 +95,11 @@ func svSub(a, b SV) SV {
 	return SV{Al: a.Al || b.Al, M: a.M - b.M, K: a.K, C: a.C - b.C, W: a.W}.norm()
 }
 
-func (a SV) pureStride() bool { return !a.Top && !a.Bot && !a.Al && !a.K && a.C == 0 && a.M != 0 && a.W == 0 }
-func (a SV) isConst() bool    { return !a.Top && !a.Bot && !a.Al && !a.K && a.M == 0 && a.W == 0 }
-func (a SV) aligned0() bool   { return !a.Top && !a.Bot && !a.K && a.C == 0 && a.W == 0 }
+func (a SV) pureStride() bool {
+	return !a.Top && !a.Bot && !a.Al && !a.K && a.C == 0 && a.M != 0 && a.W == 0
+}
+func (a SV) isConst() bool  { return !a.Top && !a.Bot && !a.Al && !a.K && a.M == 0 && a.W == 0 }
+func (a SV) aligned0() bool { return !a.Top && !a.Bot && !a.K && a.C == 0 && a.W == 0 }
 
 func svMul(a, b SV) SV {
 	if a.Bot || b.Bot {
